@@ -384,10 +384,10 @@ class FuncGen:
         if not re.fullmatch(r'\d+', lv.strip()) or not re.fullmatch(r'-?\d+', vv.strip()):
             raise IRError('memset with non-constant length/value')
         n, b = int(lv), int(vv) & 0xff
-        sid = tr.site_set(self.fname, dt, dv, 'w')
         base = self.v(dt, dv)
         off = 0
         while off < n:
+            sid = tr.site_set(self.fname, dt, dv, 'w', off - off % 8)
             sz = 8 if n - off >= 8 else 4 if n - off >= 4 else 2 if n - off >= 2 else 1
             pat = int.from_bytes(bytes([b]) * sz, 'little')
             if isinstance(sid, str):
@@ -402,9 +402,9 @@ class FuncGen:
         if not re.fullmatch(r'\d+', lv.strip()):
             raise IRError('memcpy with non-constant length')
         n = int(lv)
-        ds, ss = tr.site_set(self.fname, dt, dv, 'w'), tr.site_set(self.fname, st, sv, 'r')
         off = 0
         while off < n:
+            ds, ss = tr.site_set(self.fname, dt, dv, 'w', off - off % 8), tr.site_set(self.fname, st, sv, 'r', off - off % 8)
             sz = 8 if n - off >= 8 else 4 if n - off >= 4 else 2 if n - off >= 2 else 1
             if isinstance(ss, str):
                 src = 'LDP(pa_%s, %s + %dUL - %dUL, %d, %d)' % (ss[1:], self.v(st, sv), off, (0xD0000 + int(ss[1:])) << 20, sz, self.psize(ss))
@@ -643,7 +643,7 @@ def gen_memory_cbmc(tr):
             lv0 = getattr(o, 'init_live', 0) if hasattr(o, 'snap') else 0
             out.append('_Bool lv_%d = %d;' % (o.oid, 1 if lv0 else 0))
     tr.class_stats = stats
-    conds = ' || '.join('((a >> 20) == %dUL && (a & 0xfffffUL) < %dUL)' % (o.oid + 1, o.size) for o in tr.objs) or '0'
+    conds = ' || '.join('((a >> 20) == %dUL && (a & 0xfffffUL) < %dUL)' % (o.oid + 1, o.size) for o in tr.objs if not getattr(o, 'dead', False)) or '0'
     out.append('static _Bool vm_inrange(W a){ return %s; }' % conds)
     for k, key in enumerate(tr.set_keys):
         cells = tr.cells_for_key(key)
@@ -651,6 +651,8 @@ def gen_memory_cbmc(tr):
         st = ' '.join(arms_st[(o.oid, c)] for o, c in cells)
         desc = 'TOP' if key is None else ' '.join(sorted('%s+%s' % (a, b) for a, b in key))[:150]
         desc = '[set %d: %s]' % (k, desc.replace('"', '').replace('\\', ''))
+        inn = ' '.join('case %dUL:' % (o.base + 8 * c) for o, c in cells)
+        out.append('static _Bool in_%d(W a){ switch(a){ %s return 1; default: return 0; } }' % (k, inn) if cells else 'static _Bool in_%d(W a){ return 0; }' % k)
         out.append('static W cl_%d(W a){ switch(a){ %s default: VM_BADADDR(a, "%s"); return 0; } }' % (k, ld, desc))
         out.append('static void cs_%d(W a, W v){ switch(a){ %s default: VM_BADADDR(a, "%s"); return; } }' % (k, st, desc))
         objs = []
